@@ -17,3 +17,18 @@ package kvstore
 //@ func (k *KVStore) Import(data []byte, f func(uint64, storage.Entry) error) error
 //@   props C11
 //@   ensures #reports_the_recorded_error [C11] internal: result == err
+
+// Drop removes the exported table from the store and from the registry scans go through: exactly the entry of the
+// dropped table's coefficient disappears, every other table stays registered and keeps its place in the list.
+//@ func (t *transferIterator) Drop(index int) error
+//@   props C11 C12
+//@   requires #shape: t != nil && t.storage != nil && t.storage.tablesByCoefficient != nil && off(t.storage.tables) == 0 &&
+//@                (forall i int {t.storage.tables[i]} :: 0 <= i && i < len(t.storage.tables) ==> t.storage.tables[i] != nil)
+//@   requires #index: 0 <= index && index < len(t.storage.tables)
+//@   ensures #ok: result == nil
+//@   ensures #dropped_table_is_unregistered [C11 C12]: !(old(t.storage.tables[index].coefficient) in t.storage.tablesByCoefficient)
+//@   ensures #other_registrations_kept [C11 C12]: forall c uint64 {c in t.storage.tablesByCoefficient} :: c != old(t.storage.tables[index].coefficient) ==>
+//@                (c in t.storage.tablesByCoefficient) == old(c in t.storage.tablesByCoefficient) && t.storage.tablesByCoefficient[c] == old(t.storage.tablesByCoefficient[c])
+//@   ensures #only_that_table_leaves [C11]: len(t.storage.tables) == old(len(t.storage.tables)) - 1 &&
+//@                (forall j int {t.storage.tables[j]} :: 0 <= j && j < index ==> t.storage.tables[j] == old(t.storage.tables[j])) &&
+//@                (forall j int {t.storage.tables[j]} :: index <= j && j < len(t.storage.tables) ==> t.storage.tables[j] == old(t.storage.tables[j+1]))
